@@ -37,6 +37,8 @@ M = [
      "bt/algos.py", "        t0 = target.now - self.lag\n        if t0 not in stat.index:", "        t0 = target.now + self.lag\n        if t0 not in stat.index:"),
     ("c04_weightarget_uses_latest_row", "C04,C15", "WeighTarget takes the last row of the frame when it has a row for now",
      "bt/algos.py", "            w = weights.loc[target.now]\n\n            # dropna and save", "            w = weights.iloc[-1] if len(weights) < 40 and weights.index[-1] != target.now else weights.loc[target.now]\n\n            # dropna and save"),
+    ("c04_coupon_next_row", "C04,C17", "coupon accrual reads the next date's coupon",
+     "bt/core.py", "        coupon = self._coupons.values[inow]\n", "        coupon = self._coupons.values[min(inow + 1, len(self._coupons.values) - 1)]\n"),
     ("c05_step_ignores_multiplier", "C05", "sizing step ignores the multiplier",
      "bt/core.py", "                dq_wout_considering_tx_costs = (full_outlay - amount) / (self._price * self.multiplier)", "                dq_wout_considering_tx_costs = (full_outlay - amount) / self._price"),
     ("c05_closeout_on_abs_value", "C05", "close-out shortcut also taken when amount equals plus the value of a short",
